@@ -94,7 +94,9 @@ def shards(tier: str) -> List[Dict[str, Any]]:
             if (model, name) in STRUCTURE_NOT_APPLICABLE:
                 continue
             out.append({"name": f"structure:{model}:{name}", "params": {"kind": "structure", "model": model, "name": name},
-                        "budget_s": 120 if tier == "quick" else 900, "per_path_timeout": 60})
+                        "budget_s": 120 if tier == "quick" else 900, "per_path_timeout": 60,
+                        # eight optional / list properties: the shapes of the valid document multiply; explored under a budget
+                        **({"exploratory": True} if (model, name) == ("shapes", "Shapes") else {})})
     return out
 
 
